@@ -182,12 +182,17 @@ def incrementsOf (r : List K) : List K :=
   | [] => []
   | a :: t => a :: List.zipWith (fun start stop => stop - start) (a :: t) t
 
+/-- The assertion of `get_increments` (since commit cae935f): `increment_grid[0] >= 0 and np.all(increment_grid[1:] > 0)` —
+the first "increment" is the first radius itself, which may be zero; the differences must be positive. -/
+def incrementsOk (inc : List K) : Bool :=
+  !decide (inc.getD 0 0 < 0) && inc.tail.all (fun x => decide (0 < x))
+
 /-- `t_additional`: the radial grid with one more shell at `t[-1] + increments[-1]`
-(`IndexError` on an empty grid, `AssertionError` unless all increments are positive). -/
+(`IndexError` on an empty grid, `AssertionError` unless the first radius is non-negative and all differences positive). -/
 def extendedRadii (t : List K) : Except String (List K) :=
   match t.getLast?, lastIncrement t with
   | some l, some inc =>
-    if (incrementsOf t).all (fun x => decide (0 < x)) then pure (t ++ [l + inc]) else throw "AssertionError"
+    if incrementsOk (incrementsOf t) then pure (t ++ [l + inc]) else throw "AssertionError"
   | _, _ => throw "IndexError"
 
 /-- `extended_position_grid`, the input of `scipy.spatial.Voronoi`. -/
